@@ -50,6 +50,45 @@ def _collect(paths, R, allowed_fn):
     return bad, ok
 
 
+def ctor_rule(P, rep, rid):
+    """DiffXParseError(msg, linenum, column) with a message that echoes input text: constructing the error must not
+    itself raise (e.g. by using the message as a %-format string)."""
+    pe = P.cls('pydiffx.errors', 'DiffXParseError')
+    init = pe.find_method('__init__')
+    I = Interp(P)
+    st = {}
+
+    def thunk():
+        o = AObj(pe)
+        msg = Unk('msg', kinds=['str'], taint=['INPUT'])
+        ln = Unk('linenum', kinds=['int'], taint=['INPUT'])
+        kw = {'linenum': ln}
+        c = I.choose(2, 'column')
+        if c == 1:
+            kw['column'] = Unk('column', kinds=['int'], taint=['INPUT'])
+        I.frames = []
+        I.call_function(init, [o, msg], kw, None, self_cls=pe)
+        return o
+    bad = {}
+    n = 0
+    for path in I.explore(thunk):
+        n += 1
+        if n > 200:
+            raise AnalysisError('too many paths in DiffXParseError.__init__')
+        for ev in path.events:
+            if ev.kind == 'mayraise' and not ev.data['caught']:
+                bad.setdefault((exc_name(ev.data['exc']), norm(ev.node)[:70]), (ev, ev.data['why']))
+        if path.outcome == 'raise':
+            e = path.value
+            bad.setdefault((e.exc.exc_name, norm(e.site)[:70] if e.site is not None else '?'), (None, e.note or 'raise'))
+    for (exn, txt), (ev, why) in sorted(bad.items()):
+        rep.violation(rid, 'error-ctor-raises:%s:%s' % (exn, txt), ev.loc if ev is not None else init.loc(),
+                      'constructing DiffXParseError with a message that echoes input can itself raise %s at [%s] (%s): the caller gets that '
+                      'exception instead of the parse error' % (exn, txt, why), path=[init.short])
+    if not bad:
+        rep.ok(rid, 'DiffXParseError.__init__ cannot raise on (text, int, int|None)', {'paths': n})
+
+
 def _task(X):
     P, R, table, var, loop, stubs = _CTX[:6]
     # the header path itself is analysed with 0..2 option pairs by C11-R2; here one abstract pair suffices
@@ -198,6 +237,12 @@ def run(P, rep, tier):
             rep.violation(r3, 'attr:%s' % attr, init.loc(), 'DiffXParseError.%s is not the unmodified %s argument (stored: %s): message and attribute disagree'
                           % (attr, attr, norm(v) if v is not None else 'nothing'))
     fmt = [norm(n) for n in walk_no_nested(init.node) if isinstance(n, ast.BinOp) and isinstance(n.op, ast.Add)]
+    for n in walk_no_nested(init.node):
+        # (x or 0) + 1 and similar: the operand mentions the argument, the addend is 1
+        if isinstance(n, ast.BinOp) and isinstance(n.op, ast.Add) and isinstance(n.right, ast.Constant) and n.right.value == 1:
+            for x in ast.walk(n.left):
+                if isinstance(x, ast.Name) and x.id in ('linenum', 'column'):
+                    fmt.append('%s + 1' % x.id)
     # the 1-based rendering may sit in a helper the constructor hands the two numbers to: follow one call level,
     # renaming the helper's parameters back to the constructor's
     for n in walk_no_nested(init.node):
@@ -229,6 +274,7 @@ def run(P, rep, tier):
             rep.ok(r3, 'message shows %s + 1' % attr)
         else:
             rep.violation(r3, 'message:%s' % attr, init.loc(), 'the message does not show %s + 1 (1-based) for the stored 0-based %s' % (attr, attr))
+    ctor_rule(P, rep, r3)
     n_sites = 0
     for f in R.funcs + [parse]:
         for n in walk_no_nested(f.node):
